@@ -81,7 +81,7 @@ def pair_sum_size(l):
     return sum_(lambda k: l[k][1], 0, len(l))
 
 
-@contract("flumine/utils.py::calculate_matched_exposure", tags=["C16", "C01"])
+@contract("flumine/utils.py::calculate_matched_exposure", tags=["C16-in-main", "C01"])
 def _(mb: ListOf(Tup(REAL, REAL)), ml: ListOf(Tup(REAL, REAL))) -> Tup(REAL, REAL):
     invariant(0, "back_sums", back_exp == -sum_(lambda k: mb[k][1], 0, _i0) and back_profit == sum_(lambda k: (mb[k][0] - 1) * mb[k][1], 0, _i0))
     invariant(1, "lay_sums", lay_exp == sum_(lambda k: (ml[k][0] - 1) * -ml[k][1], 0, _i1) and lay_profit == sum_(lambda k: ml[k][1], 0, _i1))
@@ -89,7 +89,7 @@ def _(mb: ListOf(Tup(REAL, REAL)), ml: ListOf(Tup(REAL, REAL))) -> Tup(REAL, REA
     ensures("lose", result[1] == round(pair_sum_size(ml) + -pair_sum_size(mb), 2))
 
 
-@contract("flumine/utils.py::calculate_unmatched_exposure", tags=["C16", "C01"])
+@contract("flumine/utils.py::calculate_unmatched_exposure", tags=["C16-in-main", "C01"])
 def _(ub: ListOf(Tup(REAL, REAL)), ul: ListOf(Tup(REAL, REAL))) -> Tup(REAL, REAL):
     invariant(0, "back_sum", back_exp == -sum_(lambda k: ub[k][1], 0, _i0))
     invariant(1, "lay_sum", lay_exp == sum_(lambda k: (ul[k][0] - 1) * -ul[k][1], 0, _i1))
@@ -117,7 +117,7 @@ def order_ok(o):
     return (is_limit(o) or is_sp(o)) and implies(is_sp(o), o.order_type.liability is not None)
 
 
-@contract("flumine/markets/blotter.py::Blotter.get_exposures", tags=["C16", "C01"])
+@contract("flumine/markets/blotter.py::Blotter.get_exposures", tags=["C16-in-main", "C01"])
 def _(self, strategy: Ref("BaseStrategy"), lookup: Tup(ATOM, INT, REAL), exclusion: Opt(Ref("BaseOrder")), new_order: Opt(Ref("BaseOrder"))) -> Ref("Exposures"):
     requires("view_exists", (strategy, lookup[1], lookup[2]) in self._strategy_selection_orders)
     requires("known_order_types", forall(lambda j: order_ok(sel_view(self, strategy, lookup)[j]), 0, len(sel_view(self, strategy, lookup)))
